@@ -371,6 +371,27 @@ impl LV {
             LV::DT(i) => i.usecs(),
         }
     }
+    /// Format into a caller-supplied sink.
+    pub fn format_into<W: std::fmt::Write>(&self, f: &Formatter, w: &mut W) -> Result<(), String> {
+        let r = match *self {
+            LV::Date(v) => f.format(v, w),
+            LV::Time(v) => f.format(v, w),
+            LV::Ts(v) => f.format(v, w),
+            LV::Ora(v) => f.format(v, w),
+            LV::YM(v) => f.format(v, w),
+            LV::DT(v) => f.format(v, w),
+        };
+        r.map_err(|e| format!("{:?}", e))
+    }
+    /// day number of the value's date part, if it has one
+    pub fn day_number(&self) -> Option<i64> {
+        match *self {
+            LV::Date(v) => Some(v.days() as i64),
+            LV::Ts(v) => Some(v.usecs().div_euclid(86_400_000_000)),
+            LV::Ora(v) => Some(v.usecs().div_euclid(86_400_000_000)),
+            _ => None,
+        }
+    }
     /// Format through a text sink (fmt::Write); Err(text) = the library returned an error.
     pub fn format_with(&self, f: &Formatter) -> Result<String, String> {
         let mut s = String::new();
